@@ -1,13 +1,13 @@
 (* C13 — A repeating observer sees its producers' final output and then stops.  Property theorems only. *)
-From Coq Require Import ZArith List Bool.
+From Coq Require Import ZArith List Bool Lia.
 Import ListNotations.
-Require Import V.Repeat.Model V.Repeat.Proofs V.Repeat.Final.
+Require Import V.Repeat.Model V.Repeat.Proofs V.Repeat.Final V.Repeat.Producers V.Repeat.Steps.
 Open Scope Z_scope.
 
 (* Never executes before there is output it can consume: in every run (any interleaving of clock advances,
    producer writes, the notification, kills, timer expiry and monitor polls, any task outcomes) every task
-   launch was made by a poll in a state where canConsume's condition held (no same-stage producer, or the
-   producer has output), at that state's clock. *)
+   launch was made by a poll in a state where canConsume's condition held (EVERY producer in the observer's stage
+   has output; any number of producers), at that state's clock. *)
 Theorem C13_no_early_run : forall c evs x, In x (execs (run c (init c) evs)) ->
   exists evs1 o evs2, evs = evs1 ++ Poll o :: evs2 /\
     x_launch x = now (run c (init c) evs1) /\ can_consume c (run c (init c) evs1) = true.
@@ -19,12 +19,10 @@ Proof.
 Qed.
 Print Assumptions C13_no_early_run.
 
-(* ... and for a producer in the observer's stage that condition is: the producer has written output *)
-Theorem C13_consume_needs_output : forall c s,
-  c_has_prod c = true -> c_same_stage c = true -> can_consume c s = true -> exists l, lo s = Some l.
-Proof.
-  intros c s H1 H2. unfold can_consume. rewrite H1, H2. cbn. destruct (lo s); [eauto|discriminate].
-Qed.
+(* ... and that condition means: each producer in the observer's stage has written output *)
+Theorem C13_consume_needs_output : forall c s i p,
+  nth_error (c_prods c) i = Some p -> p_same p = true -> can_consume c s = true -> exists l, lo_of (lo s) i = Some l.
+Proof. intros c s i p Hn Hs H. exact (can_consume_l_nth (c_prods c) (lo s) i p H Hn Hs). Qed.
 Print Assumptions C13_consume_needs_output.
 
 (* Bounded stop: from any reachable state in which the producers are finished, as long as the engine is not
@@ -75,54 +73,154 @@ Proof.
 Qed.
 Print Assumptions C13_cancelled_then_stops.
 
-(* Sees the final output.  Hypotheses, all explicit: no kill delay configured, and the event sequence is `quiet`:
-   time does not run backwards, nobody kills the engine from outside, and no producer writes output once the
-   producers are finished (the notification follows the last output).  Then an engine that is cancelled - which
-   it can then only have done itself - and was able to consume, with last producer output at time l:
-   (a) for EVERY repeatRetries: either some execution started at or after l, or the engine never executed at
-       all and l is not newer than its own start (this is exactly finding F13);
-   (b) with repeatRetries >= 5 some execution started at or after l.  The spacing of the polls is not assumed:
-       it is derived from schedule_next_instance (>= 5 s after the previous invocation ended). *)
-Theorem C13_final_output_classified : forall c evs l,
+(* Sees the final output, for ANY number of producers and EVERY repeatRetries (the model is the code after fix F13).
+   Hypotheses, all explicit: no kill delay configured, and the event sequence is `quiet`: time does not run
+   backwards, nobody kills the engine from outside, and no producer writes output once the producers are finished.
+   Then an engine that is cancelled - which it can then only have done itself - and was able to consume has started
+   an execution at or after the last output of every one of its producers.  Each hypothesis is necessary
+   (Refuted.v: C13_kill_delay_exempt_refuted, C13_external_kill_exempt_refuted, C13_late_output_refuted). *)
+Theorem C13_sees_final_output : forall c evs,
   c_has_delay c = false -> quiet c (init c) evs ->
   let s := run c (init c) evs in
-  cancel s = true -> consume s = true -> lo s = Some l ->
-  (exists x, In x (execs s) /\ l <= x_launch x) \/ (execs s = [] /\ l <= c_t0 c).
-Proof. intros c evs l Hd Hq. exact (final_output_classified c Hd evs Hq l). Qed.
+  cancel s = true -> consume s = true ->
+  exists x, In x (execs s) /\ forall i p l, nth_error (c_prods c) i = Some p -> lo_of (lo s) i = Some l -> l <= x_launch x.
+Proof. intros c evs Hd Hq. exact (sees_final_output c Hd evs Hq). Qed.
+Print Assumptions C13_sees_final_output.
+
+(* the statement proved before the repair (kept: it is now the weaker one - its second alternative, the
+   never-executed observer of finding F13, no longer occurs) *)
+Theorem C13_final_output_classified : forall c evs,
+  c_has_delay c = false -> quiet c (init c) evs ->
+  let s := run c (init c) evs in
+  cancel s = true -> consume s = true ->
+  (exists x, In x (execs s) /\ after_all_output c s (x_launch x)) \/ (execs s = [] /\ after_all_output c s (c_t0 c)).
+Proof. intros c evs Hd Hq s H1 H2. left. exact (sees_final_output c Hd evs Hq H1 H2). Qed.
 Print Assumptions C13_final_output_classified.
 
-Theorem C13_sees_final_output : forall c evs l,
-  c_has_delay c = false -> 5 <= eff_retries c -> quiet c (init c) evs ->
-  let s := run c (init c) evs in
-  cancel s = true -> consume s = true -> lo s = Some l ->
-  exists x, In x (execs s) /\ l <= x_launch x.
-Proof. intros c evs l Hd HR Hq. exact (sees_final_output c Hd HR evs Hq l). Qed.
-Print Assumptions C13_sees_final_output.
+(* The `quiet` hypothesis DERIVED from a model of the producers: each producer writes only while it is alive, and
+   the notification is delivered when the last living producer finishes (at once when there is none).  For every
+   history of writes/finishes of any number of producers, interleaved in any way with clock advances, polls and
+   task outcomes (the environment only may not forge producer events, run the clock backwards or kill), what the
+   engine sees is quiet, hence the final output of every producer is observed. *)
+Theorem C13_producers_are_quiet : forall c pes, Forall env_ok pes -> quiet c (init c) (ptrace c pes).
+Proof. exact ptrace_quiet. Qed.
+Print Assumptions C13_producers_are_quiet.
+
+(* ... also when some producers have already finished when the subscription is made (ComponentState.stageIn subscribes
+   to the living ones only); and the producer-level scripts that the correspondence runs through the REAL
+   ComponentState.stageIn subscription (run_steps3) are such producer histories *)
+Theorem C13_producer_scripts_are_quiet : forall c al l,
+  Forall env_ok (flats3 l) ->
+  let s0 := if all_dead al then step c (init c) Notify else init c in
+  snd (run_steps3 c al s0 l) = run c (init c) (ptrace_from al (flats3 l)) /\
+  quiet c (init c) (ptrace_from al (flats3 l)).
+Proof.
+  intros c al l H. cbv zeta. split; [|apply ptrace_from_quiet, H].
+  rewrite run_steps3_state. unfold ptrace_from. destruct (all_dead al); reflexivity.
+Qed.
+Print Assumptions C13_producer_scripts_are_quiet.
+
+Theorem C13_sees_final_output_producers : forall c pes,
+  c_has_delay c = false -> Forall env_ok pes ->
+  let s := run c (init c) (ptrace c pes) in
+  cancel s = true -> consume s = true ->
+  exists x, In x (execs s) /\ forall i p l, nth_error (c_prods c) i = Some p -> lo_of (lo s) i = Some l -> l <= x_launch x.
+Proof. exact sees_final_output_producers. Qed.
+Print Assumptions C13_sees_final_output_producers.
+
+(* Scripts - the form in which the correspondence drives the real engine, with the producers-finished notification
+   possibly delivered WHILE a task execution is in flight (run_steps2) - are event sequences, so every theorem
+   above holds of them; without mid-execution events run_steps2 is run_steps. *)
+Theorem C13_script_is_event_sequence : forall c l s,
+  snd (run_steps2 c s l) = run c s (flats2 l) /\ run_steps2 c s (map lift2 (map fst l)) = run_steps c s (map fst l).
+Proof. intros c l s. split; [apply run_steps2_state|apply run_steps2_lift]. Qed.
+Print Assumptions C13_script_is_event_sequence.
+
+(* a notification delivered during the execution of a poll is indistinguishable, from the next observation on,
+   from one delivered first thing in the following sleep *)
+Theorem C13_mid_execution_notification : forall c s dt evs o dt' evs' o' post' r,
+  let a := run_steps2 c s ((dt, evs, o, [Notify]) :: (dt', evs', o', post') :: r) in
+  let b := run_steps2 c s ((dt, evs, o, []) :: (dt', Notify :: evs', o', post') :: r) in
+  snd a = snd b /\ tl (fst a) = tl (fst b).
+Proof. exact mid_notify_refines. Qed.
+Print Assumptions C13_mid_execution_notification.
+
+(* bounded stop for scripts with mid-execution events *)
+Theorem C13_steps2_bounded_stop : forall c l1 l2, 0 <= eff_retries c ->
+  let s1 := snd (run_steps2 c (init c) l1) in let s2 := snd (run_steps2 c s1 l2) in
+  pf s1 = true -> cancel s2 = false ->
+  nact s2 - nact s1 <= retries s1 /\ retries s1 <= eff_retries c.
+Proof.
+  intros c l1 l2 H. cbv zeta. rewrite !run_steps2_state. exact (bounded_stop c H (flats2 l1) (flats2 l2)).
+Qed.
+Print Assumptions C13_steps2_bounded_stop.
+
+(* cancelled, then stops, for scripts with mid-execution events: the first script step made on a cancelled engine
+   is the monitor's last, no task is launched and the controller is not invoked in it or ever after, and every
+   observation from then on shows that; once the monitor has returned every observation shows a dead engine with
+   an exit reason *)
+Theorem C13_steps2_cancelled_then_stops : forall c s,
+  (cancel s = true -> forall dt evs o post r,
+     let res := run_steps2 c s ((dt, evs, o, post) :: r) in
+     execs (snd res) = execs s /\ nact (snd res) = nact s /\ mon_done (snd res) = true /\
+     Forall (quiet_obs s) (fst res)) /\
+  (stopped s -> forall l,
+     Forall (frozen_obs s) (fst (run_steps2 c s l)) /\ stopped (snd (run_steps2 c s l)) /\
+     execs (snd (run_steps2 c s l)) = execs s /\ nact (snd (run_steps2 c s l)) = nact s).
+Proof.
+  intros c s. split.
+  - intros H dt evs o post r. exact (cancelled_steps2 c s dt evs o post r H).
+  - intros H l. exact (stopped_steps2 c l s H).
+Qed.
+Print Assumptions C13_steps2_cancelled_then_stops.
 
 (* non-vacuity: default retries; an execution, the notification, a failed execution, a poll without new output,
    new output and a successful execution: two retries used, the engine stops by itself *)
-Definition ex_cfg : cfg := {| c_retries := None; c_has_prod := true; c_same_stage := true; c_prod_rep := true;
+Definition pr (same rep : bool) : prod := {| p_same := same; p_rep := rep |}.
+Definition ex_cfg : cfg := {| c_retries := None; c_prods := [pr true true];
   c_check_out := true; c_has_delay := false; c_interval := 10000; c_t0 := 100000 |}.
 Definition ex_o rc := {| o_fail := false; o_rc := rc; o_dur := 1000; o_re := false; o_sui := false |}.
 Example C13_nonvacuous :
   let s := run ex_cfg (init ex_cfg)
-    [Poll (ex_o 0); Adv 5000; Out; Poll (ex_o 0); Adv 5000; Poll (ex_o 0); Adv 5000; Out; Notify; Poll (ex_o 1);
-     Adv 5000; Poll (ex_o 1); Adv 5000; Out; Poll (ex_o 0)] in
+    [Poll (ex_o 0); Adv 5000; Out 0; Poll (ex_o 0); Adv 5000; Poll (ex_o 0); Adv 5000; Out 0; Notify; Poll (ex_o 1);
+     Adv 5000; Poll (ex_o 1); Adv 5000; Out 0; Poll (ex_o 0)] in
   map x_launch (rev (execs s)) = [110000; 116000; 127000] /\ retries s = 1 /\ cancel s = true /\ mon_done s = true /\
   exit_reason s = RSuccess /\ pf s = true /\ nact s = 5.
 Proof. vm_compute. repeat split; reflexivity. Qed.
 
-(* the hypotheses of C13_sees_final_output are satisfiable by a run in which the engine stops by itself:
-   6 retries, output older than the start, notified before the first poll: the fifth poll is forced to execute *)
-Definition ex_cfg6 : cfg := {| c_retries := Some 6; c_has_prod := true; c_same_stage := true; c_prod_rep := true;
+(* the hypotheses of C13_sees_final_output(_producers) are satisfiable by a run in which the engine stops by itself:
+   two same-stage repeating producers, default retries; the observer cannot consume until BOTH have output; the
+   first producer finishes (a later write of it is not made), the second writes once more and finishes: the
+   notification follows; the observer then executes (at 121 s) after that last output (at 116 s) and stops *)
+Definition ex_cfg2 : cfg := {| c_retries := None; c_prods := [pr true true; pr true true];
   c_check_out := true; c_has_delay := false; c_interval := 10000; c_t0 := 100000 |}.
-Definition ex_evs6 : list event :=
-  [Out; Notify; Poll (ex_o 0); Adv 5000; Poll (ex_o 0); Adv 5000; Poll (ex_o 0); Adv 5000; Poll (ex_o 0);
-   Adv 5000; Poll (ex_o 0); Adv 5000; Poll (ex_o 0)].
+Definition ex_pes2 : list pevent :=
+  [PWrite 0; PEnv (Poll (ex_o 0)); PEnv (Adv 5000); PEnv (Poll (ex_o 0)); PWrite 1; PEnv (Adv 5000); PEnv (Poll (ex_o 0));
+   PFinish 0; PEnv (Adv 5000); PWrite 0; PWrite 1; PFinish 1; PEnv (Adv 5000); PEnv (Poll (ex_o 0))].
 Example C13_sees_nonvacuous :
-  quiet ex_cfg6 (init ex_cfg6) ex_evs6 /\
-  let s := run ex_cfg6 (init ex_cfg6) ex_evs6 in
-  cancel s = true /\ consume s = true /\ lo s = Some 100000 /\ map x_launch (execs s) = [125000] /\ retries s = 1.
+  Forall env_ok ex_pes2 /\
+  ptrace ex_cfg2 ex_pes2 =
+    [Out 0; Poll (ex_o 0); Adv 5000; Poll (ex_o 0); Out 1; Adv 5000; Poll (ex_o 0); Adv 5000; Out 1; Notify; Adv 5000;
+     Poll (ex_o 0)] /\
+  quiet ex_cfg2 (init ex_cfg2) (ptrace ex_cfg2 ex_pes2) /\
+  let s := run ex_cfg2 (init ex_cfg2) (ptrace ex_cfg2 ex_pes2) in
+  cancel s = true /\ consume s = true /\ lo s = [Some 100000; Some 116000] /\
+  map x_launch (rev (execs s)) = [110000; 121000] /\ retries s = 3 /\ mon_done s = true.
 Proof.
-  vm_compute. repeat split; try reflexivity; try (intro H; discriminate H); try (intros _ H; discriminate H).
+  split; [repeat constructor; try discriminate; cbn; try lia|].
+  vm_compute. repeat split; try reflexivity; try (intro H; discriminate H); try (intros _ j H; discriminate H);
+    try (intros H j; discriminate H).
+Qed.
+
+(* the repaired case of finding F13: output older than the observer's start, notified before the first poll,
+   repeatRetries 0: the first poll executes (and stops the observer) *)
+Example C13_never_executed_nonvacuous :
+  let c := {| c_retries := Some 0; c_prods := [pr true true]; c_check_out := true; c_has_delay := false;
+              c_interval := 10000; c_t0 := 100000 |} in
+  let evs := [Out 0; Notify; Poll (ex_o 0)] in
+  quiet c (init c) evs /\ let s := run c (init c) evs in
+  cancel s = true /\ consume s = true /\ lo s = [Some 100000] /\ map x_launch (execs s) = [100000].
+Proof.
+  vm_compute. repeat split; try reflexivity; try (intro H; discriminate H); try (intros _ j H; discriminate H);
+    try (intros H j; discriminate H).
 Qed.
